@@ -8,3 +8,5 @@ REG_LIE(Eigen::VectorXd, RXd);
 REG_LIE(double, Scalard);
 REG_LIE(smooth::SO3f, SO3f);
 REG_LIE(smooth::SE3f, SE3f);
+REG_LIE(smooth::SE2f, SE2f);
+REG_LIE(smooth::C1f, C1f);
